@@ -89,10 +89,17 @@ func runCase(tc *tcase, pub *chain.Pub) (ob observed) {
 		dst.Put(ch.Cids[i], b)
 	}
 	var mu sync.Mutex
-	hook := func(_ peer.ID, bc cid.Cid, actions dagsync.SegmentSyncActions) {
+	// every other advertisement-chain case steers the segments with the library's own general block hook
+	general := dagsync.MakeGeneralBlockHook(func(c cid.Cid) (cid.Cid, error) { return ch.Prev(c), nil })
+	useGeneral := c.Kind == "ads" && (c.N+len(c.Pre)+c.SubSeg+c.CallSeg)%2 == 1
+	hook := func(p peer.ID, bc cid.Cid, actions dagsync.SegmentSyncActions) {
 		mu.Lock()
 		ob.Reported = append(ob.Reported, num(ch, bc))
 		mu.Unlock()
+		if useGeneral {
+			general(p, bc, actions)
+			return
+		}
 		actions.SetNextSyncCid(ch.Prev(bc))
 	}
 	opts := []dagsync.Option{dagsync.BlockHook(hook), dagsync.HttpTimeout(10 * time.Second), dagsync.SegmentDepthLimit(int64(c.SubSeg))}
